@@ -158,29 +158,37 @@ impl ShardAssignment {
 
     /// Assign using consistent hashing
     async fn assign_consistent_hash(&self, shard_id: &str) -> Result<String> {
-        let ring = self.hash_ring.read().await;
+        {
+            let ring = self.hash_ring.read().await;
 
-        if let Some(node_id) = ring.get_node(shard_id) {
-            Ok(node_id)
-        } else {
-            // Ring is empty, populate it
-            drop(ring);
-            let mut ring = self.hash_ring.write().await;
-            let nodes = self.node_registry.get_healthy_ingesters().await;
-
-            if nodes.is_empty() {
-                return Err(crate::Error::Internal(
-                    "No healthy ingester nodes".to_string(),
-                ));
+            if let Some(node_id) = ring.get_node(shard_id) {
+                // The ring is only rebuilt on rebalance, so it can still name a node
+                // that was drained, failed, overloaded or removed since then.
+                if let Some(node) = self.node_registry.get_node(&node_id).await {
+                    if node.can_accept_writes() {
+                        return Ok(node_id);
+                    }
+                }
             }
-
-            for node in &nodes {
-                ring.add_node(&node.id);
-            }
-
-            ring.get_node(shard_id)
-                .ok_or_else(|| crate::Error::Internal("Failed to assign shard".to_string()))
         }
+
+        // Ring is empty or stale for this shard, rebuild it from the healthy ingesters
+        let mut ring = self.hash_ring.write().await;
+        let nodes = self.node_registry.get_healthy_ingesters().await;
+
+        if nodes.is_empty() {
+            return Err(crate::Error::Internal(
+                "No healthy ingester nodes".to_string(),
+            ));
+        }
+
+        ring.clear();
+        for node in &nodes {
+            ring.add_node(&node.id);
+        }
+
+        ring.get_node(shard_id)
+            .ok_or_else(|| crate::Error::Internal("Failed to assign shard".to_string()))
     }
 
     /// Assign using round-robin
